@@ -127,7 +127,7 @@ theorem qinv_step (c : Cfg) (s s' : State) (l : Label) (h : QInv s) (hs : step c
     rename_i hh _
     refine ⟨by simp [h1], h2, ?_, h4, h5⟩
     intro hi; simp_all
-  | admit =>
+  | grant =>
     simp only [step] at hs
     (repeat' split at hs) <;> (try (simp at hs; done))
     obtain rfl := Option.some.inj hs
